@@ -657,6 +657,7 @@ pub fn c20(tier: Tier) -> Check {
                final configuration (FIR up to entry order), get_padding as configured; size queries (calculate_size, or SdesChunkBuilder::write_into) on the partially configured builder at history-chosen points must leave no trace; non-trivial = a setter is overwritten, an owned variant / wrapper is used after another field was set, or the size was queried mid-way",
         assumptions: vec!["the canonical construction (harness/src/drive.rs) is itself checked against the RFC image by C07"],
         legs: vec![
+            super::reuse::shared_fci_leg(tier),
             Box::new(RandomLeg { name: "valid-configs-x-histories", cases: tier.pick(400_000, 6_000_000), make: Box::new(|| hist_case(false)), oracle: c20_oracle }),
             Box::new(RandomLeg { name: "any-configs-x-histories", cases: tier.pick(200_000, 3_000_000), make: Box::new(|| hist_case(true)), oracle: c20_oracle }),
             Box::new(SweepLeg {
